@@ -19,6 +19,14 @@ CHECKS = {
    text="Lean theorems for every sample mask, every cycle table and every setting: burst_fraction is the fraction of the samples last..next INCLUSIVE that the detector marks; labels are fraction >= threshold followed by the minimum-run rule; one and the same min_n_cycles (burst options, else thresholds, else 3) reaches detector and run filter; antitone in the threshold; guards. The sample-wise dual-threshold detector is a parameter (arbitrary mask). The run recomputes the mask with neurodsp for the min_n_cycles the spec prescribes and compares compute_features(burst_method='amp') end to end on partially bursting signals, both centrings, all four routings of min_n_cycles.",
    note=NOTE_COMMON + "neurodsp.burst.detect_bursts_dual_threshold is modelled as a parameter, not verified; min_burst_duration=None as in the statement. Inputs on which the neurodsp kernel itself raises (whole signal bursting) are counted as kernel errors, not judged.",
    technique="Lean 4 proof (kernel as parameter) + differential correspondence with recorded kernel output", ref="6 C07"),
+ 'C02': dict(
+   text="Lean theorems for EVERY sign pattern of the filtered signal, every raw signal, pad length, boundary and first_extrema: the transcription of find_extrema (crossing lists, peak/trough counts, the two advancing scans, first arg-extrema of the raw padded signal, un-padding, boundary filter, trimming; comparators regenerated from /repo) reports exactly one peak per positive and one trough per negative half-wave closed by zero-crossings on both sides, at the FIRST raw maximum/minimum of the half-wave's window, nothing else (C02_exact, C02_halfwave_*, C02_first_max/min); crossings alternate (discrete intermediate value); kept iff boundary < i < len - boundary; first_extrema gives the requested start and equal counts (C02_first); C02_full chains them. The run ships the raw signal and the sign pattern of the real neurodsp filter (and synthetic patterns, ties, plateaus) and compares model, spec and find_extrema.",
+   note=NOTE_COMMON + "neurodsp filter_signal / compute_filter_length are parameters (any sign pattern, any pad length). Hypothesis of C02_exact/C02_full: the filtered signal has a zero-crossing of each direction; the degenerate remainder (len/2 dummy crossing) is compared model-vs-implementation only.",
+   technique="Lean 4 proof (filter as parameter, scan invariants) + differential correspondence on real filter output and synthetic sign patterns", ref="6 C02"),
+ 'C03': dict(
+   text="Lean theorems for every signal over Q and every strictly alternating extrema sequence: the crossing scan finds exactly the samples with x[i] <= h < x[i+1] (rise) / x[i] > h >= x[i+1] (decay); a proper flank always has a crossing (discrete intermediate value), so the len/2 dummy is reached only on flat-ended flanks; value = the crossing, the floor of the temporal median of several, or the temporal centre for inverted / all-zero flanks; one midpoint per adjacent pair, rises for trough->peak, each inside its flank; find_zerox's count/bias logic returns exactly these (C03_counts_order). The run is exhaustive over all flank segments over {-1,0,1,2} up to a length bound and all alternating sequences on all small ternary signals, plus cyclepoints of generated signals.",
+   note=NOTE_COMMON + "Half heights (a+b)/2 are exact on the exhaustive integer grids; on float signals a disagreement is recorded as a float tie only if a sample lies within 2^-40 relative of the exact half height.",
+   technique="Lean 4 proof + exhaustive small-scope and generated correspondence of model, spec and implementation", ref="6 C03"),
 }
 NA_REASON = "check under construction (see DESIGN.md section 6); not yet claimed"
 m = {"version": 1, "setup_cmd": "./setup.sh",
